@@ -17,6 +17,9 @@ pub fn body_alphabet(full: bool) -> Vec<ValD> {
     };
     let mut v = vec![
         ValD::Str(s("s")),
+        // (an empty string is a value like any other: it provides a declared dimension and
+        // takes its name)
+        ValD::Str(s("")),
         m(vec![Obs::U(1)], vec![]),
         m(vec![Obs::U(1)], vec![(s("k"), s("v"))]),
     ];
